@@ -2202,7 +2202,7 @@ fn replay_input(rep: &mut Report, cx: &Ctx, ls: &mut Linters, wasm: &mut Option<
 fn main() {
     let (a, corpus) = hv::cli();
     let mut rep = Report::new(&a.out);
-    rep.rule = "correspondence: T curated table; C random LintGroupConfig operation sequences (3 registers, 0-14 ops over real rule names + unknown/odd keys incl. NUL, quotes, control characters, astral; merges, clears, fills, JSON round trips via serde_json and Config::from_lsp_config); J JSON texts (valid with whitespace/escape/surrogate/duplicate variants + 13 fault classes); W every J text also through from_str::<Value> + from_value::<LintGroupConfig> (N not JSON / B wrong shape / configuration; oracle: whatever the typed parser accepts this route accepts with the same result); V complete settings texts through from_str::<Value> + Config::from_lsp_config (linters printed from configurations incl. complete rule maps, faulty configuration texts, objects mixing booleans with numbers/strings/arrays/objects, arbitrary values; unknown / duplicate / other known members of the harper-ls object; settings that are not objects; nesting 123-129 deep around serde_json's recursion limit; number literals around the f64 range edge and malformed ones; round-trip oracle lsp_roundtrip when the linters member was printed from a configuration); P printer; H Hasher::write calls; K histories (config operations and lint calls on 2-4 documents sharing chunks) on ONE long-lived group of 2-6 test rules: lints and the number of pattern evaluations (= cache misses x enabled pattern rules) per call vs C11Cache.run_history, plus fresh-vs-warm and toggle-over-the-history oracles; L LintGroup::lint over groups of test rules built with add/add_pattern_linter/merge_from/set_all_rules_to (names collide, one name in both maps, pattern lints before their chunk). search: curated LintGroup on generated documents (plain 3/4, markdown 1/4) x random on/off/null/absent configurations at six densities: fresh-vs-long-lived, union of single-switch runs, all-off/clear/empty silent, two-way partition (multiset + order), toggle (others keep value and order), unknown keys, save/fill/lint/restore incl. harper-ls generate_diagnostics/generate_code_actions and harper_wasm::Linter; histories of 1-4 settings objects (1/5 of them complete rule maps) sent to one harper_wasm::Linter (stored configuration = correspondence through the `w` operation; last object alone decides = property oracle, C11_wasm_history_curated; was finding FC11a, fixed by b67a243). complete rule maps (every entry explicit) with 0-5 curated rules missing and stale keys standing in so that the entry count is below / at / above the number of rules: as C operation sequences ending in fill_with_curated (200 / 3000) and as search configurations incl. generate_diagnostics (10 / 150). thorough adds every one-character key U+0000..U+07FF + a sweep of higher planes through printer/parser/LSP route and 150 documents with all rules on (every rule singly). non-trivial = distinct (text, configuration) with >=2 enabled rules and >=1 lint, or op sequence >=3, or accepted JSON text, or dispatch case with lints".into();
+    rep.rule = "correspondence: T curated table; C random LintGroupConfig operation sequences (3 registers, 0-14 ops over real rule names + unknown/odd keys incl. NUL, quotes, control characters, astral; merges, clears, fills, JSON round trips via serde_json and Config::from_lsp_config); J JSON texts (valid with whitespace/escape/surrogate/duplicate variants + 13 fault classes); W every J text also through from_str::<Value> + from_value::<LintGroupConfig> (N not JSON / B wrong shape / configuration; oracle: whatever the typed parser accepts this route accepts with the same result); V complete settings texts through from_str::<Value> + Config::from_lsp_config (linters printed from configurations incl. complete rule maps, faulty configuration texts, objects mixing booleans with numbers/strings/arrays/objects, arbitrary values; unknown / duplicate / other known members of the harper-ls object; settings that are not objects; nesting 123-129 deep around serde_json's recursion limit; number literals around the f64 range edge and malformed ones; round-trip oracle lsp_roundtrip when the linters member was printed from a configuration); P printer; H Hasher::write calls; K histories (config operations and lint calls on 2-4 documents sharing chunks) on ONE long-lived group of 2-6 test rules: lints and the number of pattern evaluations (= cache misses x enabled pattern rules) per call vs C11Cache.run_history, plus fresh-vs-warm and toggle-over-the-history oracles; Q the same histories with the chunk key concrete: the case carries the source characters and the token slices of iter_chunks() (kinds interned, document-space spans; numbers, apostrophes, hyphens, capitalised twins, double spaces, newlines) and the pattern rules as (word, tag), and C11ChunkKey.run_token_history computes hulls, chunk characters, relative tokens, keys and the rules' reports itself (lints + pattern evaluations per call); L LintGroup::lint over groups of test rules built with add/add_pattern_linter/merge_from/set_all_rules_to (names collide, one name in both maps, pattern lints before their chunk). search: curated LintGroup on generated documents (plain 3/4, markdown 1/4) x random on/off/null/absent configurations at six densities: fresh-vs-long-lived, union of single-switch runs, all-off/clear/empty silent, two-way partition (multiset + order), toggle (others keep value and order), unknown keys, save/fill/lint/restore incl. harper-ls generate_diagnostics/generate_code_actions and harper_wasm::Linter; histories of 1-4 settings objects (1/5 of them complete rule maps) sent to one harper_wasm::Linter (stored configuration = correspondence through the `w` operation; last object alone decides = property oracle, C11_wasm_history_curated; was finding FC11a, fixed by b67a243). complete rule maps (every entry explicit) with 0-5 curated rules missing and stale keys standing in so that the entry count is below / at / above the number of rules: as C operation sequences ending in fill_with_curated (200 / 3000) and as search configurations incl. generate_diagnostics (10 / 150). thorough adds every one-character key U+0000..U+07FF + a sweep of higher planes through printer/parser/LSP route and 150 documents with all rules on (every rule singly). non-trivial = distinct (text, configuration) with >=2 enabled rules and >=1 lint, or op sequence >=3, or accepted JSON text, or dispatch case with lints".into();
     let cx = Ctx::new();
     let mut ls = Linters { shared: LintGroup::new_curated(cx.dict.clone(), Dialect::American) };
     let mut wasm: Option<harper_wasm::Linter> = None;
